@@ -64,7 +64,9 @@ pub fn tokens_sexp(ts: &[ParserToken]) -> String {
     format!("({})", items.join(" "))
 }
 
-/// the tree as an s-expression; with `loc` every node carries `LINE COLUMN` after its head word
+/// the tree as an s-expression; with `loc` every node carries `LINE COLUMN` after its head word (correspondence);
+/// without, it is the form the property oracle compares: no locations, and calls without the internal name and
+/// DISTINCT flag the parser gives them (`create_array`, `timestamp_extract_…` are not the sentence's business)
 pub fn tree_sexp(t: &ParserExpressionTree, loc: bool) -> String {
     let l = if loc { format!(" {} {}", t.location.line, t.location.column) } else { String::new() };
     let list = |xs: &Vec<ParserExpressionTree>| -> String { xs.iter().map(|x| format!(" {}", tree_sexp(x, loc))).collect::<Vec<_>>().join("") };
@@ -90,7 +92,7 @@ pub fn tree_sexp(t: &ParserExpressionTree, loc: bool) -> String {
             format!("(in{} {} {} ({}))", l, if *is_not { 1 } else { 0 }, tree_sexp(operand, loc), list(values)),
         ParserExpressionTreeData::Call { name, arguments, distinct } => {
             let d = match distinct { None => "none", Some(false) => "d0", Some(true) => "d1" };
-            format!("(call{} {} ({}) {})", l, hexs(name), list(arguments), d)
+            if loc { format!("(call{} {} ({}) {})", l, hexs(name), list(arguments), d) } else { format!("(call ({}))", list(arguments)) }
         }
         ParserExpressionTreeData::ArrayElementAccess { array, index } => format!("(index{} {} {})", l, tree_sexp(array, loc), tree_sexp(index, loc)),
         ParserExpressionTreeData::TypeConversion { operand, convert_to_type } => format!("(cast{} {} {})", l, tree_sexp(operand, loc), vtype_sexp(convert_to_type)),
@@ -437,14 +439,12 @@ pub fn expected(e: &E) -> String {
         E::Index(a, i) => format!("(index {} {})", expected(a), expected(i)),
         E::Cast(x, t) => format!("(cast {} {})", expected(x), vtype_sexp(&type_of_name(t).expect("type name"))),
         E::In(n, x, vs) => format!("(in {} {} ({}))", if *n { 1 } else { 0 }, expected(x), list(vs)),
-        E::Call(name, args) => format!("(call {} ({}) {})", hexs(name), list(args), if name.to_lowercase() == "count" { "d0" } else { "none" }),
-        E::CountDistinct(name, args) => format!("(call {} ({}) d1)", hexs(name), list(args)),
-        E::Array(_, args) => format!("(call {} ({}) none)", hexs("create_array"), list(args)),
+        E::Call(_, args) | E::CountDistinct(_, args) | E::Array(_, args) => format!("(call ({}))", list(args)),
         E::Case(clauses, els) => {
             let cs: Vec<String> = clauses.iter().map(|(c, r)| format!(" ({} {})", expected(c), expected(r))).collect();
             format!("(case ({}) {})", cs.join(""), expected(els))
         }
-        E::Extract(part, x) => format!("(call {} ( {}) none)", hexs(&format!("timestamp_extract_{}", part.to_lowercase())), expected(x)),
+        E::Extract(_, x) => format!("(call ( {}))", expected(x)),
         E::Tuple(xs) => format!("(tuple{})", list(xs)),
         E::Paren(x) => expected(x),
     }
